@@ -1590,17 +1590,27 @@ func (c *CAManager) SignCertificate(csr *x509.CertificateRequest, spiffeID conne
 		// so they will have a dummy trust domain in the CSR.
 		trustDomain := signingID.Host()
 		if agentID.Host != trustDomain {
-			originalURI := agentID.URI()
+			original := *agentID
 
 			agentID.Host = trustDomain
 
-			// recreate the URIs list
+			// recreate the URIs list: every URI that names this agent is replaced,
+			// however it is spelled (percent-escapes, an explicit default
+			// partition, a query or fragment). Comparing the URL strings instead
+			// would leave such a URI, and its foreign host, in the certificate.
 			uris := make([]*url.URL, len(csr.URIs))
 			for i, uri := range csr.URIs {
-				if originalURI.String() == uri.String() {
+				uris[i] = uri
+				parsed, err := connect.ParseCertURI(uri)
+				if err != nil {
+					continue
+				}
+				if other, ok := parsed.(*connect.SpiffeIDAgent); ok &&
+					other.Host == original.Host &&
+					other.PartitionOrDefault() == original.PartitionOrDefault() &&
+					other.Datacenter == original.Datacenter &&
+					other.Agent == original.Agent {
 					uris[i] = agentID.URI()
-				} else {
-					uris[i] = uri
 				}
 			}
 
